@@ -173,3 +173,63 @@ Theorem C10_source_excess_unlinks_unfinished_first : forall render d t ts ns ba 
     excess_step render d ((false, (ba, bl)) :: sf) (t, sc, lg) =
       (XNext, (tree_remove t d (NRec ts Temp), tl sc, lg ++ [CRm d (NRec ts Temp) true]), sf).
 Proof. exact excess_unlinks_unfinished_first. Qed.
+
+(* ---- the daemon's start-up sequence (runMain in cmd/thermal-recorder/main.go, from startService on) ----
+   translated/MainLoop.v is the Go code as it is now; model/MainExt.v states what the calls that leave it mean
+   (startService / host.Init / deleteTempFiles answer from the world, the accept loop follows a script of rounds, every
+   call is an entry of a log); proofs/TieMain.v.  The clean-up itself is the translated deleteTempFiles above
+   (the C10_source_cleanup theorems); here: WHEN it runs.  For every outcome of the three start-up calls, every script of rounds
+   (Accept fails | a camera is served and handleConn returns anything), every final Listen error, a stale socket file or
+   none, any token counter and any fuel beyond the script: *)
+From TR Require Import translated.MainLoop model.MainExt proofs.TieMain.
+
+(* result and log of the translated code are the description [daemon_result] / [daemon_log]; the listeners left open
+   are [daemon_leaks] *)
+Theorem C10_source_startup_tie : forall fuel start host clean its fin stale next,
+    (List.length its < fuel)%nat ->
+    exists w',
+      src_main fuel start host clean its fin stale next = Ok (Some (daemon_result start host clean fin)) w' /\
+      mw_log w' = daemon_log start host clean its fin next /\
+      mw_open w' = daemon_leaks start host clean its next.
+Proof. exact main_run. Qed.
+
+(* deleteTempFiles runs exactly once - when startService and host.Init succeeded - and never otherwise *)
+Theorem C10_source_startup_clean_once : forall start host clean its fin n,
+    mcount is_clean (daemon_log start host clean its fin n) =
+      match start, host with None, None => 1%nat | _, _ => 0%nat end.
+Proof. exact clean_once. Qed.
+
+(* BEFORE anything is served: whatever entry of the serving phase the log holds - the goroutine, a Remove of the socket,
+   a Listen, an Accept, a Close, a handleConn - comes after startService, host.Init and deleteTempFiles, in that order,
+   and all three returned nil.  No connection is ever served in a directory that was not cleaned *)
+Theorem C10_source_startup_clean_before_serving : forall start host clean its fin n pre e post,
+    daemon_log start host clean its fin n = pre ++ e :: post ->
+    serving e = true ->
+    start = None /\ host = None /\ clean = None /\ exists pre', pre = [MStart; MHost; MClean] ++ pre'.
+Proof. exact clean_before_serving. Qed.
+
+(* a failing startService, host.Init or deleteTempFiles ends the daemon with THAT error, and nothing of the serving
+   phase happened *)
+Theorem C10_source_startup_fail : forall start host clean its fin n,
+    (start <> None \/ host <> None \/ clean <> None) ->
+    (exists e, daemon_result start host clean fin = Zpos e /\
+               (start = Some e \/ (start = None /\ host = Some e) \/ (start = None /\ host = None /\ clean = Some e))) /\
+    forallb (fun ev => negb (serving ev)) (daemon_log start host clean its fin n) = true.
+Proof. exact startup_fail. Qed.
+
+(* every call the code makes has a stated meaning (no MBad entry), the whole tail is inside the translation, and every
+   name under which it leaves the translation has a clause in the handler *)
+Theorem C10_source_startup_no_bad_call : forall start host clean its fin n,
+    bad_calls (daemon_log start host clean its fin n) = [].
+Proof. exact daemon_log_no_bad. Qed.
+
+Theorem C10_source_startup_translated :
+    untranslated_MainLoop = [] /\ forallb (fun n => existsb (String.eqb n) mext_names) ext_names_MainLoop = true.
+Proof. exact (conj main_untranslated main_ext_names_known). Qed.
+
+(* non-vacuity (evaluated): the clean-up fails - its error is the result, nothing is served; host.Init fails - not even
+   the clean-up runs *)
+Example C10_source_startup_ex :
+  show_main (src_main 10 None None (Some 3%positive) [ItServe 0] 9 false 1) = Some (Some 3, [MStart; MHost; MClean], []) /\
+  show_main (src_main 10 None (Some 4%positive) None [ItServe 0] 9 false 1) = Some (Some 4, [MStart; MHost], []).
+Proof. exact (conj ex_main_clean_fails ex_main_host_fails). Qed.
